@@ -198,6 +198,7 @@ def run(repo, rep, tier):
                             f"path never visits keeps no record of the batch", stmt=f"slots {sorted(slots_np ^ slots_fill)}")
     extrema_tables(repo, rep)
     count_multiplicity(repo, rep)
+    index_formula_rule(repo, rep)
     coverage_guard(repo, prims, rep=rep)
     positive_control(repo, rep, r3)
     merge_formulas(repo, rep, r5, models)
@@ -377,3 +378,131 @@ def merge_formulas(repo, rep, r5, models):
             if not ok:
                 rep.finding("R3.5", npf, npf.node, f"{cname}._numpy combines the old state with the batch as `{fld}` = {got!r}, but __add__ of the "
                             f"same state with the batch's (entries, mean, variance) gives {w!r}", stmt=f"{fld}: batch merge formula")
+
+
+# ---------------------------------------------------------------------------------------------- R3.8 float-exact index formula
+_NP_BIN = {"subtract": ast.Sub, "add": ast.Add, "multiply": ast.Mult, "divide": ast.Div, "true_divide": ast.Div}
+
+
+def _canon_float(e):
+    """text of a float expression tree up to the commutativity of + and * (exact in IEEE arithmetic); association and
+    distribution are NOT normalised - they change the rounding"""
+    if isinstance(e, ast.BinOp) and type(e.op) in (ast.Add, ast.Mult, ast.Sub, ast.Div):
+        a, b = _canon_float(e.left), _canon_float(e.right)
+        sym = {ast.Add: "+", ast.Mult: "*", ast.Sub: "-", ast.Div: "/"}[type(e.op)]
+        if isinstance(e.op, (ast.Add, ast.Mult)):
+            a, b = sorted([a, b])
+        return f"({a} {sym} {b})"
+    if isinstance(e, ast.Call) and isinstance(e.func, ast.Name) and e.func.id == "float" and len(e.args) == 1:
+        return _canon_float(e.args[0])
+    return ast.unparse(e).replace(" ", "")
+
+
+def scalar_floor_exprs(f):
+    """expressions under math.floor in a scalar index method, locals expanded, the datum parameter written X"""
+    x = f.params[1] if len(f.params) > 1 else None
+    defs = {}
+    for st in walk_local_stmt(f.node):
+        if isinstance(st, ast.Assign) and len(st.targets) == 1 and isinstance(st.targets[0], ast.Name):
+            defs.setdefault(st.targets[0].id, []).append(st.value)
+
+    def expand(e, depth=0):
+        import copy
+
+        class X(ast.NodeTransformer):
+            def visit_Name(self, n):
+                if n.id == x:
+                    return ast.Name(id="X", ctx=ast.Load())
+                if len(defs.get(n.id, [])) == 1 and depth < 4:
+                    return expand(defs[n.id][0], depth + 1)
+                return n
+        return X().visit(copy.deepcopy(e))
+    out = []
+    for n in walk_local_stmt(f.node):
+        if isinstance(n, ast.Call) and ast.unparse(n.func) in ("math.floor", "np.floor", "numpy.floor", "floor") and n.args:
+            out.append((n, expand(n.args[0])))
+    return out
+
+
+def vector_floor_exprs(f):
+    """expressions that reach np.floor in a vectorised body: the in-place ufunc sequence (np.subtract(q, a, q), ...) and
+    plain assignments are replayed symbolically along the statements leading to the floor; the quantity array is written X"""
+    import copy
+    results = []
+
+    def sym(e, env):
+        class S(ast.NodeTransformer):
+            def visit_Name(self, n):
+                return copy.deepcopy(env[n.id]) if n.id in env else n
+        return S().visit(copy.deepcopy(e))
+
+    def is_np(call, names):
+        fn = call.func
+        return isinstance(fn, ast.Attribute) and isinstance(fn.value, ast.Name) and fn.value.id in ("np", "numpy") and fn.attr in names
+
+    def step(st, env):
+        if isinstance(st, ast.Expr) and isinstance(st.value, ast.Call):
+            c = st.value
+            if is_np(c, _NP_BIN) and len(c.args) == 3 and isinstance(c.args[2], ast.Name):
+                env[c.args[2].id] = ast.BinOp(left=sym(c.args[0], env), op=_NP_BIN[c.func.attr](), right=sym(c.args[1], env))
+            elif is_np(c, {"floor"}) and c.args:
+                results.append((st, sym(c.args[0], env)))
+        elif isinstance(st, ast.Assign) and len(st.targets) == 1 and isinstance(st.targets[0], ast.Name):
+            v, t = st.value, st.targets[0].id
+            if isinstance(v, ast.Call) and is_np(v, _NP_BIN) and len(v.args) == 2:
+                env[t] = ast.BinOp(left=sym(v.args[0], env), op=_NP_BIN[v.func.attr](), right=sym(v.args[1], env))
+            elif isinstance(v, ast.Call) and is_np(v, {"floor"}) and v.args:
+                results.append((st, sym(v.args[0], env)))
+                env.pop(t, None)
+            elif isinstance(v, ast.Call) and (is_np(v, {"array", "asarray", "ascontiguousarray", "float64"}) and v.args):
+                env[t] = sym(v.args[0], env)
+            elif isinstance(v, ast.Call) and isinstance(v.func, ast.Attribute) and v.func.attr in ("astype", "copy") and isinstance(v.func.value, ast.Name):
+                env[t] = sym(v.func.value, env)
+            elif isinstance(v, ast.Call) and isinstance(v.func, ast.Attribute) and v.func.attr == "quantity":
+                env[t] = ast.Name(id="X", ctx=ast.Load())
+            elif isinstance(v, (ast.BinOp, ast.Name, ast.Attribute, ast.Constant)):
+                env[t] = sym(v, env)
+            else:
+                env.pop(t, None)
+        elif isinstance(st, ast.AugAssign) and isinstance(st.target, ast.Name) and type(st.op) in (ast.Add, ast.Sub, ast.Mult, ast.Div):
+            t = st.target.id
+            env[t] = ast.BinOp(left=sym(ast.Name(id=t, ctx=ast.Load()), env), op=type(st.op)(), right=sym(st.value, env))
+
+    def block(stmts, env):
+        for st in stmts:
+            if isinstance(st, (ast.If, ast.For, ast.While, ast.With, ast.Try)):
+                for fld in ("body", "orelse", "finalbody"):
+                    b = getattr(st, fld, None)
+                    if isinstance(b, list) and b and isinstance(b[0], ast.stmt):
+                        block(b, dict(env))
+                # names assigned inside are unknown afterwards
+                for x in ast.walk(st):
+                    if isinstance(x, ast.Name) and isinstance(x.ctx, ast.Store):
+                        env.pop(x.id, None)
+            else:
+                step(st, env)
+    block(f.node.body, {})
+    return results
+
+
+def index_formula_rule(repo, rep):
+    r8 = rep.rule("R3.8", "the vectorised bin index applies the floating-point operations of the scalar index method in the same order "
+                  "(equal up to commutativity of + and *)", floor=2)
+    for cname in ("Bin", "SparselyBin"):
+        c = repo.cls(cname)
+        sc, ve = repo.lookup(c, "bin"), repo.own_method(c, "_numpy")
+        if not isinstance(sc, FuncInfo):
+            raise AnalysisError(f"{cname}.bin not found")
+        s_exprs = scalar_floor_exprs(sc)
+        v_exprs = vector_floor_exprs(ve)
+        if not s_exprs or not v_exprs:
+            continue       # no floor on one side: another index scheme; R3.1 compares the routing by regions
+        s_txt = {_canon_float(e) for _, e in s_exprs}
+        for st, e in v_exprs:
+            t = _canon_float(e)
+            ok = t in s_txt
+            r8.ob(ok, f"{cname}._numpy: floor({t}) vs {cname}.bin: floor({sorted(s_txt)})")
+            if not ok:
+                rep.finding("R3.8", ve, st, f"{cname}._numpy takes the floor of `{t}` but the scalar index method {cname}.bin takes the floor of "
+                            f"`{' / '.join(sorted(s_txt))}`: the two round differently, so a value within an ulp of a bin edge is put into one "
+                            f"bin by fill and into the neighbouring bin by fill.numpy", stmt=f"{cname}: vector index formula {t}")
